@@ -18,6 +18,10 @@ def beNat (bs : List UInt8) : Nat := bs.foldl (fun acc b => acc * 256 + b.toNat)
 
 def asciiBytes (s : String) : List UInt8 := s.toList.map fun c => UInt8.ofNat c.toNat
 
+/-- `defaultLifeTimeProof`, `defaultLifeTimePayload` (seconds) -/
+def defaultLifeTimeProof : Int := 300
+def defaultLifeTimePayload : Int := 300
+
 def tonProofPrefix : List UInt8 := asciiBytes "ton-proof-item-v2/"
 def tonConnectPrefix : List UInt8 := asciiBytes "ton-connect"
 
